@@ -329,6 +329,9 @@ func runParent(id, tier string, seed int64) int {
 		seen := map[string]bool{}
 		for _, rep := range reports {
 			cls, helm := raceClass(rep)
+			if helm && p.RaceClassSuffix != nil {
+				cls += p.RaceClassSuffix(rep)
+			}
 			if !helm {
 				agg.Stats["race_reports_foreign"]++
 				continue
